@@ -180,6 +180,33 @@ def run(res, tier):
             bad.append(dict(what='fitting a second regressor built with the same Tsvd object changed the truncated SVD published by the '
                                  'first one (retained rank / singular values no longer belong to its operator), or fitted the user\'s object',
                             regressor=repr(r1), user_object_fitted=hasattr(t, 'singular_values_'), X=X1.tolist()))
+    # history: a refit that is refused (a parameter value the estimator does not accept, here a differently cased mode name)
+    # leaves the attributes of the earlier completed fit: eigenvalues_, modes_ and coef_ still belong together
+    for h in range(4 if tier == 'quick' else 16):
+        ns_, nu_, X1 = gen_data(rng); _, _, X2 = gen_data(rng)
+        try:
+            if nu_ == 0 and h % 2 == 0:
+                reg = pykoop.Dmd(mode_type='projected').fit(X1, n_inputs=0, episode_feature=True)
+            else:
+                reg = pykoop.Dmdc(mode_type='projected').fit(X1, n_inputs=nu_, episode_feature=True)
+        except Exception:  # noqa
+            continue
+        reg.set_params(mode_type=['Exact', 'EXACT', 'Projected', 'exact '][h % 4])
+        try:
+            reg.fit(3.0 * X1[::-1].copy() if X2.shape[1] != X1.shape[1] else X2, n_inputs=nu_, episode_feature=True)
+            continue          # (accepted: then it is an ordinary fit, covered above)
+        except Exception:  # noqa
+            pass
+        evals += 1
+        dist['refused_refit'] = dist.get('refused_refit', 0) + 1
+        try:
+            reg.set_params(mode_type='projected')
+            info = check_fit(reg, X1, ns_, nu_, type(reg).__name__)
+        except Exception as e:  # noqa
+            info = dict(what=f'after a refused refit the attributes of the earlier fit cannot be read: {type(e).__name__}: {e}'[:300])
+        if info:
+            bad.append(dict(info, history='fit, set_params(mode_type=<differently cased name>), refit refused with an exception',
+                            regressor=repr(reg), n_states=ns_, n_inputs=nu_, X=X1.tolist()))
     res.coverage.update(
         programs=evals, disagreements_checked=evals, evaluations=evals, distinct_nontrivial=evals,
         rule=('Dmd / Dmdc x {exact, projected} x truncation of both SVDs (none, economy, rank, cutoff, unknown_noise) x '
